@@ -9,6 +9,7 @@ use affinitree::distill::schema;
 use affinitree::linalg::affine::AffFunc;
 use affinitree::linalg::polyhedron::PolytopeStatus;
 use affinitree::pwl::afftree::AffTree;
+use affinitree::pwl::node::NodeState;
 use affinitree::verif_hooks::{self, LpFault, LpRecord};
 use ndarray::{Array1, Array2};
 use std::collections::HashMap;
@@ -241,7 +242,21 @@ pub fn case(rng: &mut Rng, w: &Weights, tag: &str) -> String {
         let mut extra_before: Option<AffTree<2>> = None; // un-pruned reference result, where there is one
         let mut opclass = 0; // 1 = elim, 2 = reduce
         let run: Box<dyn FnOnce(&mut AffTree<2>)>;
-        if pick < w.apply_func {
+        // now and then the user adds witnesses of their own to the public cache of a node (the cache is a list):
+        // points strictly inside the node's path region, next to the cached one
+        let planted = if rng.chance(1, 10) { plant_witnesses(rng, &t) } else { None };
+        if let Some((idx, pts)) = planted {
+            write!(opdesc, "plant {} {}", idx, pts.len()).unwrap();
+            for x in &pts {
+                opdesc.push(' ');
+                enc::vec(&mut opdesc, x);
+            }
+            run = Box::new(move |t| {
+                if let NodeState::FeasibleWitness(v) = &mut t.tree.node_value_mut(idx).unwrap().state {
+                    v.extend(pts);
+                }
+            });
+        } else if pick < w.apply_func {
             let p = 1 + rng.below(3);
             let a = rand_aff(rng, p, m);
             opdesc.push_str("apply_func ");
@@ -477,6 +492,42 @@ fn same_code(x: &AffTree<2>, y: &AffTree<2>) -> u8 {
 fn panic_token(e: &Box<dyn std::any::Any + Send>) -> &'static str {
     let msg = e.downcast_ref::<String>().map(|s| s.as_str()).or_else(|| e.downcast_ref::<&str>().copied()).unwrap_or("");
     if msg.contains("SingularMatrix") { "panicS" } else { "panic" }
+}
+
+/// a node that caches a witness, and one or two further points strictly inside its path region (slack >= 2^-10 in every
+/// row), found next to the cached witness
+fn plant_witnesses(rng: &mut Rng, t: &AffTree<2>) -> Option<(usize, Vec<Array1<f64>>)> {
+    let n = t.in_dim();
+    let mut cands: Vec<(usize, Polytope, Array1<f64>)> = Vec::new();
+    let mut it = t.polyhedra();
+    while let Some((data, polys)) = it.next(&t.tree) {
+        if let NodeState::FeasibleWitness(ws) = &t.tree.node_value(data.index).unwrap().state {
+            if let Some(w0) = ws.first() {
+                if w0.iter().all(|v| (v * 1024.0).fract() == 0.0 && v.abs() < 4096.0) {
+                    cands.push((data.index, Polytope::intersection_n(n, polys.as_slice()), w0.clone()));
+                }
+            }
+        }
+    }
+    if cands.is_empty() {
+        return None;
+    }
+    let (idx, poly, w0) = rng.pick(&cands).clone();
+    let mut pts = Vec::new();
+    for _ in 0..12 {
+        let mut x = w0.clone();
+        let s = *rng.pick(&[1.0, 0.5, 0.25, 2.0, 4.0]);
+        for j in 0..n {
+            x[j] += s * rng.lat_int();
+        }
+        if x != w0 && poly.distance_raw(&x).iter().all(|d| *d >= 0.0009765625) {
+            pts.push(x);
+            if pts.len() >= 2 {
+                break;
+            }
+        }
+    }
+    if pts.is_empty() { None } else { Some((idx, pts)) }
 }
 
 fn layer_desc(l: &Layer) -> String {
